@@ -3,7 +3,7 @@
 
     C <id> fifo=<0|1> depth=<D> ns=<n> nr=<n> dsize=<w> top=<module> senders=a,b receivers=c,d
     V <one-line S-expression of the parsed Verilog file set>
-    T <id> <mode> <pRaise> <pDrop> <w0>,<w1>,…      mode = agents | raw ; w = hex word per cycle
+    T <id> <mode> <pRaiseS> <pRaiseR> <pDrop> <w0>,<w1>,…   mode = agents | raw ; w = hex word per cycle
     X <id> <maxStates>                               exhaustive exploration (BFS, all input valuations)
     S                                                run the Vlog engine self-tests
 
@@ -18,7 +18,8 @@
   `Stack.step`; afterwards ALL registers of the module are compared with the model state.  The
   property itself is evaluated on the implementation's outputs alone by a scoreboard (`sb`): every
   rising Ack is a transfer, writes append, reads must return the element prescribed by the
-  discipline, flags must reflect the occupancy.
+  discipline, flags must reflect the occupancy, a held request must be acknowledged within the
+  bound of the liveness theorems.
 -/
 import BMV.Stack
 import BMV.Lines
@@ -32,6 +33,7 @@ structure Agent where
   req : Nat      -- Write / Read input
   ack : Nat
   name : String
+deriving Inhabited
 
 structure Ix where
   clk : Nat
@@ -177,6 +179,11 @@ structure Run where
   sb : List Nat := []      -- scoreboard: elements the implementation has acknowledged, oldest first
   prev : InVal             -- inputs of the previous cycle (agents keep requests/data stable)
   stats : Stats := {}
+  mismatch : Option (Nat × String) := none   -- first register disagreement circuit/model
+  /-- per sender: write-enabled cycles its current un-acknowledged request has waited -/
+  wWait : Array Nat := #[]
+  /-- per receiver: consecutive non-empty cycles its current un-acknowledged request has waited -/
+  rWait : Array Nat := #[]
 
 def hexVal (s : String) : Nat :=
   s.toList.foldl (fun acc c =>
@@ -187,9 +194,9 @@ def hexVal (s : String) : Nat :=
 def bitsAt (w lo n : Nat) : Nat := (w >>> lo) % (2 ^ n)
 
 /-- inputs of this cycle from the random word.
-    agents: idle → raise with probability pRaise/8 (new data); requesting, no ack → hold request
+    agents: idle → raise with probability pRaiseS/8 (senders), pRaiseR/8 (receivers) (new data); requesting, no ack → hold request
     and data; acknowledged → drop with probability pDrop/8.  raw: everything random, reset 1/64. -/
-def nextInputs (k : Cfg13) (mode : String) (pRaise pDrop : Nat) (w : Nat) (r : Run) : InVal :=
+def nextInputs (k : Cfg13) (mode : String) (pRaiseS pRaiseR pDrop : Nat) (w : Nat) (r : Run) : InVal :=
   let nS := k.c.nS
   let nR := k.c.nR
   let dmask := 2 ^ k.dsize
@@ -200,12 +207,12 @@ def nextInputs (k : Cfg13) (mode : String) (pRaise pDrop : Nat) (w : Nat) (r : R
       wdata := (Array.range nS).map fun a => bitsAt w (32 + 8 * a) 8 % dmask }
   else
     let ack (a : Agent) := r.st.get a.ack == 1
-    let decide (req : Bool) (acked : Bool) (ch : Nat) : Bool :=
+    let choose (pRaise : Nat) (req : Bool) (acked : Bool) (ch : Nat) : Bool :=
       if !req then decide (ch < pRaise) else if acked then !(decide (ch < pDrop)) else true
     let wr := (Array.range nS).map fun a =>
-      decide (r.prev.wr[a]?.getD false) (ack (k.ix.snd[a]!)) (bitsAt w (8 + 3 * a) 3)
+      choose pRaiseS (r.prev.wr[a]?.getD false) (ack (k.ix.snd[a]!)) (bitsAt w (8 + 3 * a) 3)
     let rd := (Array.range nR).map fun a =>
-      decide (r.prev.rd[a]?.getD false) (ack (k.ix.rcv[a]!)) (bitsAt w (8 + 3 * (nS + a)) 3)
+      choose pRaiseR (r.prev.rd[a]?.getD false) (ack (k.ix.rcv[a]!)) (bitsAt w (8 + 3 * (nS + a)) 3)
     let wdata := (Array.range nS).map fun a =>
       if r.prev.wr[a]?.getD false then r.prev.wdata[a]?.getD 0 else bitsAt w (32 + 8 * a) 8 % dmask
     { reset := false, wr, rd, wdata }
@@ -218,10 +225,19 @@ def stepBoth (k : Cfg13) (r : Run) (i : InVal) : Except (String × String) Run :
   let st' ← match k.d.cycle k.ix.clk r.st (i.toVlog k) with
     | .ok s => pure s
     | .error e => throw ("vlog-error", e)
-  let s' := ofKey c (modelKey c (step 0 c r.s i.toModel))
-  -- (1) all registers
-  if let some m := compareAll k st' s' then throw ("mismatch", m)
-  if !invB c s' then throw ("model-inv", "the model left its invariant")
+  let sm := ofKey c (modelKey c (step 0 c r.s i.toModel))
+  -- (1) all registers.  A disagreement is remembered (first one wins) and the model is
+  -- re-synchronised to the circuit, so that the scoreboard keeps judging the implementation
+  -- on the rest of the trace (search for a failing input of the property itself).
+  let mm := compareAll k st' sm
+  let mm := match mm with
+    | some m => some m
+    | none => if invB c sm then none else some "the model left its invariant"
+  let s' := if mm.isSome then readBack k st' else sm
+  let mismatch := match r.mismatch, mm with
+    | some x, _ => some x
+    | none, some m => some (r.stats.cycles, m)
+    | none, none => none
   -- (2) the property on the implementation's outputs: scoreboard
   let rise (a : Agent) : Bool := r.st.get a.ack == 0 && st'.get a.ack == 1
   let wr := (List.range c.nS).filter fun n => rise (k.ix.snd[n]!)
@@ -259,6 +275,30 @@ def stepBoth (k : Cfg13) (r : Run) (i : InVal) : Except (String × String) Run :
     let a := k.ix.rcv[n]!
     if !i.reset && r.st.get a.ack == 1 && st'.get a.ack != (if i.rd[n]?.getD false then 1 else 0) then
       throw ("property", s!"ack of receiver {n} not held until the request drops")
+  -- bounded response (theorems `bounded_response_write/read`, judged on the circuit's outputs):
+  -- an un-acknowledged held write is served within nS write-enabled cycles, a held read within nR
+  -- consecutive non-empty cycles
+  let preEmpty := r.st.get k.ix.empty == 1
+  let preFull := r.st.get k.ix.full == 1
+  let enabled := !i.reset && !(countTrue i.rd > 0 && !preEmpty) && !preFull
+  let mut wWait : Array Nat := #[]
+  for n in List.range c.nS do
+    let a := k.ix.snd[n]!
+    let w0 := r.wWait[n]?.getD 0
+    let waiting := !i.reset && (i.wr[n]?.getD false) && r.st.get a.ack == 0
+    let w1 := if !waiting || wr.contains n then 0 else if enabled then w0 + 1 else w0
+    if w1 ≥ c.nS then
+      throw ("property", s!"sender {n} kept its request for {w1} write-enabled cycles (number of senders: {c.nS}) without being acknowledged")
+    wWait := wWait.push w1
+  let mut rWait : Array Nat := #[]
+  for n in List.range c.nR do
+    let a := k.ix.rcv[n]!
+    let w0 := r.rWait[n]?.getD 0
+    let waiting := !i.reset && (i.rd[n]?.getD false) && r.st.get a.ack == 0 && !preEmpty
+    let w1 := if !waiting || rd.contains n then 0 else w0 + 1
+    if w1 ≥ c.nR then
+      throw ("property", s!"receiver {n} kept its request for {w1} non-empty cycles (number of receivers: {c.nR}) without being acknowledged")
+    rWait := rWait.push w1
   let t := r.stats
   let wrapped := if c.fifo then (s'.wp == 0 && r.s.wp != 0) || (s'.rp == 0 && r.s.rp != 0) else s'.sp == c.D
   let stats : Stats :=
@@ -268,7 +308,7 @@ def stepBoth (k : Cfg13) (r : Run) (i : InVal) : Except (String × String) Run :
       wrap := t.wrap + (if wrapped then 1 else 0)
       blockedW := t.blockedW + (if !i.reset && rBranch c r.s i.toModel && countTrue i.wr > 0 then 1 else 0)
       contended := t.contended + (if countTrue i.wr > 1 || countTrue i.rd > 1 then 1 else 0) }
-  pure { st := st', s := s', sb, prev := i, stats }
+  pure { st := st', s := s', sb, prev := i, stats, mismatch, wWait, rWait }
 
 def idleIn (c : Cfg) (reset : Bool) : InVal :=
   { reset, wr := Array.replicate c.nS false, wdata := Array.replicate c.nS 0, rd := Array.replicate c.nR false }
@@ -281,18 +321,23 @@ def startRun (k : Cfg13) : Except (String × String) Run := do
   let r0 : Run := { st := st0, s := reset 0, prev := idleIn k.c true }
   stepBoth k r0 (idleIn k.c true)
 
-def runTrace (k : Cfg13) (mode : String) (pRaise pDrop : Nat) (ws : List Nat) : String :=
+def runTrace (k : Cfg13) (mode : String) (pRaiseS pRaiseR pDrop : Nat) (ws : List Nat) : String :=
   match startRun k with
   | .error (kind, m) => s!"FAIL kind={kind} cycle=0 {m}"
   | .ok r0 =>
     let rec go (r : Run) (n : Nat) : List Nat → String
       | [] =>
         let t := r.stats
+        if let some (cy, m) := r.mismatch then s!"FAIL kind=mismatch cycle={cy} {m} (scoreboard clean on all {t.cycles} cycles)" else
         s!"ok cycles={t.cycles} wfire={t.wfire} rfire={t.rfire} full={t.fullSeen} empty={t.emptySeen} resets={t.resets} maxocc={t.maxocc} wrap={t.wrap} blockedW={t.blockedW} contended={t.contended}"
       | w :: ws =>
-        match stepBoth k r (nextInputs k mode pRaise pDrop w r) with
+        match stepBoth k r (nextInputs k mode pRaiseS pRaiseR pDrop w r) with
         | .ok r' => go r' (n + 1) ws
-        | .error (kind, m) => s!"FAIL kind={kind} cycle={n} {m}"
+        | .error (kind, m) =>
+          let note := match r.mismatch with
+            | some (cy, mm) => s!" [first register disagreement at cycle {cy}: {mm}]"
+            | none => ""
+          s!"FAIL kind={kind} cycle={n} {m}{note}"
     go r0 1 ws
 
 /-! exhaustive exploration -/
@@ -326,11 +371,13 @@ partial def bfs (k : Cfg13) (maxStates : Nat) : String := Id.run do
       for r in frontier do
         for i in ins do
           -- the scoreboard of a state is its abstraction (already compared equal to the model's)
-          let r := { r with sb := abs k.c r.s }
+          let r := { r with sb := abs k.c r.s, wWait := #[], rWait := #[] }
           match stepBoth k r i with
           | .error (kind, m) =>
             return s!"FAIL kind={kind} state={regKey k r.st} input=reset:{i.reset},wr:{i.wr},rd:{i.rd},data:{i.wdata} {m}"
           | .ok r' =>
+            if let some (_, m) := r'.mismatch then
+              return s!"FAIL kind=mismatch state={regKey k r.st} input=reset:{i.reset},wr:{i.wr},rd:{i.rd},data:{i.wdata} {m}"
             trans := trans + 1
             let key := regKey k r'.st
             if !seen.contains key then
@@ -373,9 +420,10 @@ def stepLine (s : St) (line : String) : St × List String :=
       | .error e => ({ s with cur := none }, [s!"C {id} ERROR {e}"])
   else if line.startsWith "T " then
     match fields line, s.cur with
-    | [_, id, mode, pr, pd, ws], some k =>
-      (s, [s!"T {id} " ++ runTrace k mode (nat! pr) (nat! pd) ((ws.splitOn ",").map hexVal)])
-    | _ :: id :: _, _ => (s, [s!"T {id} FAIL kind=no-design cycle=0 configuration did not elaborate"])
+    | [_, id, mode, ps, pr, pd, ws], some k =>
+      (s, [s!"T {id} " ++ runTrace k mode (nat! ps) (nat! pr) (nat! pd) ((ws.splitOn ",").map hexVal)])
+    | _ :: id :: _, none => (s, [s!"T {id} FAIL kind=no-design cycle=0 configuration did not elaborate"])
+    | _ :: id :: _, some _ => (s, [s!"T {id} FAIL kind=bad-line cycle=0 expected: T id mode pRaiseS pRaiseR pDrop words"])
     | _, _ => (s, ["T ? FAIL kind=bad-line cycle=0"])
   else if line.startsWith "X " then
     match fields line, s.cur with
